@@ -572,6 +572,7 @@ func firstMatchRules(c *core.Ctx) {
 		for _, p := range an.Segs[h] {
 			// match condition on this path
 			match := 0
+			sawStr, sawAssign, sawIdent, sawFalse := false, false, false, false
 			for _, s := range p.Events(ir.KBranch) {
 				at := s.Atom
 				switch name {
@@ -594,30 +595,45 @@ func firstMatchRules(c *core.Ctx) {
 						match = polInt(s.Pol)
 					}
 				case "ForType":
-					// identity or String()==String() && AssignableTo; evaluated as conjunction of what is present
+					// identity, or String()==String() && AssignableTo in either order: the conjunction of what the path
+					// has tested
 					if at.Op == "bin" && at.Aux == "==" && len(at.Args) == 2 {
 						a, b := at.Args[0], at.Args[1]
 						isStr := func(t *ir.Term) bool { return t.Op == "pure" && strings.HasSuffix(t.Aux, ".String") }
-						if isStr(a) && isStr(b) || ((a.Op == "rtype") != (b.Op == "rtype") && !a.IsConst() && !b.IsConst() && !isStr(a)) {
-							if match == 0 || !s.Pol {
-								match = polInt(s.Pol)
+						switch {
+						case isStr(a) && isStr(b):
+							if s.Pol {
+								sawStr = true
+							} else {
+								sawFalse = true
 							}
-							if isStr(a) && isStr(b) && s.Pol {
-								match = 2 // needs the AssignableTo conjunct as well
+						case (a.Op == "rtype") != (b.Op == "rtype") && !a.IsConst() && !b.IsConst() && !isStr(a) && !isStr(b):
+							if s.Pol {
+								sawIdent = true
+							} else {
+								sawFalse = true
 							}
 						}
 					}
 					if at.Op == "pure" && strings.HasSuffix(at.Aux, ".AssignableTo") {
 						if s.Pol {
-							if match == 2 {
-								match = 1
-							} else if match == 0 {
-								match = 3 // AssignableTo alone: too weak
-							}
+							sawAssign = true
 						} else {
-							match = -1
+							sawFalse = true
 						}
 					}
+				}
+			}
+			if name == "ForType" {
+				switch {
+				case sawFalse:
+					match = -1
+				case sawIdent, sawStr && sawAssign:
+					match = 1
+				case sawStr:
+					match = 2 // needs the AssignableTo conjunct as well
+				case sawAssign:
+					match = 3 // AssignableTo alone: too weak
 				}
 			}
 			if match == 2 || match == 3 {
